@@ -523,7 +523,7 @@ def check_cases(ctx, cases, impl, model):
 
 def run(ctx):
     cm.check_anchors(ctx, ANCHORS)
-    n = (600 if ctx.quick else 30000) * ctx.scale
+    n = (600 if ctx.quick else 20000) * ctx.scale
     ctx.coverage["rule"] = (
         "cases from one seeded PRNG (case i replays from (seed, i)): a generated multi-module program (functions, methods, closures, "
         "recursion, a shared trampoline, try/except re-raising with `from e` / implicit context / `from None` / a handler that calls a "
